@@ -2,10 +2,11 @@
     share/shwap/*_id.go ReadFrom / Validate / ResponseSize / ResponseReader, share/eds/validation.go) and the client's
     reading of the answer (client.go doRequest).
 
-    The handler: read the identifier, validate, open the accessor by height, take its size, reserve memory for the declared
-    response size, build the response, write the status, stream the payload — with ghost counters for opened/closed accessors
-    and reserved/released memory.  The store, the resource manager's decision and the inner accessor (what the square
-    answers for an in-bounds identifier) are parameters.  Executable; no proofs here (ServerProofs.v). *)
+    The handler: read the identifier, validate, open the accessor by height (deferring its Close), take its size, reserve
+    memory for the declared response size (deferring the release), build the response, write the status, stream the payload —
+    with ghost counters for opened/closed accessors and reserved/released memory, and the recovery middleware around it.
+    The store, the resource manager's decision and the inner accessor (what the square answers for an in-bounds identifier:
+    a container, an error or a panic) are parameters.  Executable; no proofs here (ServerProofs.v). *)
 From Coq Require Import List ZArith Lia Bool.
 From CN Require Import Base.Bytes Shwap.Ids.
 Import ListNotations.
@@ -41,14 +42,33 @@ Definition bounds_ok (p : proto) (eds : Z) (i : id) : bool :=
 
 Inductive status := SNotFound | SInternal.
 Inductive outcome (P : Type) :=
-| OReset                 (* stream reset: the request could not be read or is invalid *)
+| OReset                 (* stream reset: the request could not be read or is invalid, or a panic was recovered *)
 | OResetLimit            (* reset with StreamResourceLimitExceeded: the memory reservation was refused *)
 | OStatus (s : status)   (* an error status, stream closed *)
 | OPayload (p : P).      (* status OK followed by the payload *)
 Arguments OReset {P}. Arguments OResetLimit {P}. Arguments OStatus {P}. Arguments OPayload {P}.
 
+(** what the handler's body yields before the recovery middleware: the same, or a panic unwinding through the deferred calls *)
+Inductive res (P : Type) := RDone (o : outcome P) | RPanic.
+Arguments RDone {P}. Arguments RPanic {P}.
+(** recovery.go: a recovered panic resets the stream *)
+Definition recover {P} (r : res P) : outcome P := match r with RDone o => o | RPanic => OReset end.
+
+(** what the inner accessor does with an in-bounds identifier: a container, an error, or a panic *)
+Inductive built (P : Type) := BOk (pl : P) | BErr | BPanic.
+Arguments BOk {P}. Arguments BErr {P}. Arguments BPanic {P}.
+
 Record ghost := mkghost { g_opened : nat; g_closed : nat; g_reserved : Z; g_released : Z }.
 Definition ghost0 : ghost := mkghost 0 0 0 0.
+Definition open_acc (g : ghost) : ghost := mkghost (S (g_opened g)) (g_closed g) (g_reserved g) (g_released g).
+Definition close_acc (g : ghost) : ghost := mkghost (g_opened g) (S (g_closed g)) (g_reserved g) (g_released g).
+Definition reserve (n : Z) (g : ghost) : ghost := mkghost (g_opened g) (g_closed g) (g_reserved g + n) (g_released g).
+Definition release (n : Z) (g : ghost) : ghost := mkghost (g_opened g) (g_closed g) (g_reserved g) (g_released g + n).
+
+(** Go's [defer f()] at the point where the resource was acquired: whatever the rest of the function does — return a status,
+    return early, panic — [f] runs when it is left *)
+Definition deferred {A} (f : ghost -> ghost) (body : ghost -> A * ghost) (g : ghost) : A * ghost :=
+  let '(x, g') := body g in (x, f g').
 
 Section Server.
   Context {P : Type}.
@@ -56,32 +76,43 @@ Section Server.
   Inductive lookup := LNotFound | LError | LAcc (size : option Z).
   Variable store : Z -> lookup.
   Variable limit : Z.                               (* ReserveMemory(n) succeeds iff n <= limit (the resource manager's budget) *)
-  Variable build : proto -> id -> option P.         (* the inner accessor's answer for an in-bounds identifier; None = it fails *)
+  Variable build : proto -> id -> built P.          (* the inner accessor's answer for an in-bounds identifier *)
 
   Definition read_id (p : proto) (bs : list Z) : option id :=
     if (length bs <? size (pkind p))%nat then None              (* io.ReadFull: EOF / unexpected EOF *)
     else dec (pkind p) (firstn (size (pkind p)) bs).            (* bytes after the identifier are never read *)
 
-  Definition handle (p : proto) (bs : list Z) : outcome P * ghost :=
+  (** handleDataRequest, from the ghost state [g] *)
+  Definition handle_body (p : proto) (bs : list Z) (g : ghost) : res P * ghost :=
     match read_id p bs with
-    | None => (OReset, ghost0)                                   (* statusReadReqErr *)
+    | None => (RDone OReset, g)                                          (* statusReadReqErr *)
     | Some i =>
-      if negb (validate (pkind p) i) then (OReset, ghost0) else  (* statusBadRequest *)
+      if negb (validate (pkind p) i) then (RDone OReset, g) else         (* statusBadRequest *)
       match store (h i) with
-      | LNotFound => (OStatus SNotFound, ghost0)
-      | LError => (OStatus SInternal, ghost0)
-      | LAcc None => (OStatus SInternal, mkghost 1 1 0 0)        (* Size() failed; deferred Close *)
-      | LAcc (Some eds) =>
-        let n := response_size p eds i in
-        if limit <? n then (OResetLimit, mkghost 1 1 0 0) else
-        if bounds_ok p eds i then
-          match build p i with
-          | Some pl => (OPayload pl, mkghost 1 1 n n)
-          | None => (OStatus SInternal, mkghost 1 1 n n)
-          end
-        else (OStatus SInternal, mkghost 1 1 n n)
+      | LNotFound => (RDone (OStatus SNotFound), g)
+      | LError => (RDone (OStatus SInternal), g)
+      | LAcc sz =>                                                       (* GetByHeight succeeded; defer file.Close() *)
+        deferred close_acc (fun g =>
+          match sz with
+          | None => (RDone (OStatus SInternal), g)                       (* Size() failed *)
+          | Some eds =>
+            let n := response_size p eds i in
+            if limit <? n then (RDone OResetLimit, g) else               (* ReserveMemory refused *)
+            deferred (release n) (fun g =>                               (* defer ReleaseMemory(n) *)
+              if bounds_ok p eds i then
+                match build p i with
+                | BOk pl => (RDone (OPayload pl), g)
+                | BErr => (RDone (OStatus SInternal), g)
+                | BPanic => (RPanic, g)
+                end
+              else (RDone (OStatus SInternal), g)) (reserve n g)
+          end) (open_acc g)
       end
     end.
+
+  (** RecoveryMiddleware (streamHandler (handleDataRequest)) on a fresh stream *)
+  Definition handle (p : proto) (bs : list Z) : outcome P * ghost :=
+    let '(r, g) := handle_body p bs ghost0 in (recover r, g).
 
   (** * the client (doRequest + the caller's verification) *)
   Inductive cres := CValue (p : P) | CNotFound | CInternal | CExhausted | CStreamErr | CInvalid.
@@ -102,21 +133,32 @@ Inductive sobs := SReset | SResetLimit | SNF | SINT | SOK.
 Definition sobs_eqb (x y : sobs) : bool :=
   match x, y with SReset, SReset | SResetLimit, SResetLimit | SNF, SNF | SINT, SINT | SOK, SOK => true | _, _ => false end.
 
+(** faults the harness injects behind the real server: none / GetByHeight fails with another error / Size() fails /
+    the accessor call of the ResponseReader fails / it panics *)
+Inductive fault := FNone | FStore | FSize | FBuildErr | FBuildPanic.
+
 Inductive scase :=
 | SHandle (p : proto) (bs : list Z)
           (heights : list (Z * Z))      (* stored heights and their EDS widths *)
-          (limit : Z) (build_ok : bool)
+          (limit : Z) (build_ok : bool) (f : fault)
           (obs : sobs) (opened closed : nat) (reserved released : Z)
 | SSize (p : proto) (eds : Z) (i : id) (out : Z).        (* ResponseSize *)
 
 Fixpoint assoc (k : Z) (l : list (Z * Z)) : option Z :=
   match l with [] => None | (x, v) :: l' => if x =? k then Some v else assoc k l' end.
 
+Definition case_store (heights : list (Z * Z)) (f : fault) (hh : Z) : lookup :=
+  match assoc hh heights with
+  | None => LNotFound
+  | Some e => match f with FStore => LError | FSize => LAcc None | _ => LAcc (Some e) end
+  end.
+Definition case_build (bok : bool) (f : fault) : proto -> id -> built unit :=
+  fun _ _ => match f with FBuildErr => BErr | FBuildPanic => BPanic | _ => if bok then BOk tt else BErr end.
+
 Definition model_case (c : scase) : bool :=
   match c with
-  | SHandle p bs heights lim bok obs op cl rs rl =>
-    let st := fun hh => match assoc hh heights with Some e => LAcc (Some e) | None => LNotFound end in
-    let '(o, g) := handle (P := unit) st lim (fun _ _ => if bok then Some tt else None) p bs in
+  | SHandle p bs heights lim bok f obs op cl rs rl =>
+    let '(o, g) := handle (case_store heights f) lim (case_build bok f) p bs in
     sobs_eqb (match o with OReset => SReset | OResetLimit => SResetLimit | OStatus SNotFound => SNF
                          | OStatus SInternal => SINT | OPayload _ => SOK end) obs &&
     Nat.eqb (g_opened g) op && Nat.eqb (g_closed g) cl && (g_reserved g =? rs) && (g_released g =? rl)
